@@ -371,7 +371,7 @@ def run(rep: Report, rng, tier: str, known: dict, search: bool = False) -> None:
 def evidence(rep: Report) -> None:
     write_evidence(
         rep,
-        rule="cases = expressions: all/sampled unary chains of length 3 over 17 parameterised unary makers, binary and n-ary parents over unary/binary children over leaves {x, y, 0, 1, -1, 2} (the <= 20-node combinations in which several rules are enabled at once), eight families of nested towers and wide nodes up to 40 (quick) / 120 (thorough) levels, random and rule-directed trees and their symbolic derivatives (<= 400 nodes); per case the implementation's full trace is recorded (no revisited form after a rewrite, step count, rule-freeness of the result, warnings) and compared with the model's trace; non-trivial = more steps than nodes; distinct by wire form",
+        rule="cases = expressions: all/sampled unary chains of length 3 over 17 parameterised unary makers, binary and n-ary parents over unary/binary children over leaves {x, y, 0, 1, -1, 2} (the <= 20-node combinations in which several rules are enabled at once), eight families of nested towers and wide nodes up to 40 (quick) / 120 (thorough) levels, random and rule-directed trees and their symbolic derivatives (<= 400 nodes); per case the implementation's full trace is recorded (no revisited form after a rewrite, step count, rule-freeness of the result, warnings) and compared with the model's trace; non-trivial = more steps than nodes; distinct by wire form; plus the library's own driver (_fully_reduce) on a fresh copy and on hash twins of its results, rule-freeness of final forms judged by the model's rule set, shapes aimed at rewrite rules the model does not know",
         trusted=common.TRUSTED,
         assumptions=["the quadratic step bound and the 20-node budget claim are measured (bound 4*size^2+8), not proved: the termination measure of the theorem is exponential and yields neither"],
     )
